@@ -175,15 +175,26 @@ def parse_state_body(body):
     return res
 
 
-def iter_dump(path):
-    """Yield one dict per state of a TLC `-dump` file."""
+def iter_dump(path, prefilter=None):
+    """Yield one dict per state of a TLC `-dump` file (streaming).
+
+    `prefilter`, if given, is a substring a state's text must contain to be
+    parsed at all (cheap selection of e.g. final states)."""
+    body = []
     with open(path, encoding='utf-8') as f:
-        text = f.read()
-    hs = list(_STATE_HDR.finditer(text))
-    for j, m in enumerate(hs):
-        end = hs[j + 1].start() if j + 1 < len(hs) else len(text)
-        body = text[m.end():end]
-        yield parse_state_body(body)
+        for line in f:
+            if line.startswith('State ') and line.rstrip().endswith(':'):
+                if body:
+                    b = ''.join(body)
+                    if prefilter is None or prefilter in b:
+                        yield parse_state_body(b)
+                body = []
+            else:
+                body.append(line)
+    if body:
+        b = ''.join(body)
+        if b.strip() and (prefilter is None or prefilter in b):
+            yield parse_state_body(b)
 
 
 _SIM_STATE = re.compile(r'^STATE_(\d+) ==\s*$', re.M)
